@@ -8,4 +8,6 @@ def run(ctx):
 
 
 def replay(data):
+    if lexeme.is_encoder_record(data):
+        return lexeme.replay_encoder("C07", data)
     return drv.replay(data)
